@@ -2,6 +2,7 @@
 From Coq Require Import List Arith Lia Bool String.
 Import ListNotations.
 From SP Require Import Skel Gen Expected ExpectedCones Slots Slots7 SlotsTop.
+From SP Require NetA NetSlots.
 
 Theorem C07_code_conforms :
   skel_eqb skel_Workflow_IncConcurrentTasks exp_Workflow_IncConcurrentTasks
@@ -61,6 +62,23 @@ Theorem C07_no_mutex_refuted :
              /\ (exists t, nth_error (tasks s') 0 = Some t /\ st t <> Finished).
 Proof. eexists. split; [vm_compute; reflexivity|]. repeat split; try (vm_compute; reflexivity). eexists. split; [vm_compute; reflexivity|discriminate]. Qed.
 
+(* work conservation across a process's queue of started tasks (network x slots, NetSlots): when a process has formed a task and
+   its Run loop is at the select, the task is spawned -- it enters the slot machine as a new idle task -- whatever the number of
+   earlier tasks of that process that are still unforwarded (finished or not) and whatever the slots hold; from there
+   C07_work_conserving_general applies to it.  (The T1 tie is exp_Process_Run: both cases of the select are unconditional.  Two
+   seeded changes, C07h and C07i, made the receive case wait while the queue was as long as the slot count.) *)
+Theorem C07_spawn_never_waits_for_the_queue : forall (p : NetSlots.pcfg) (s : NetSlots.pst) (v : nat),
+  v < NetA.nn (NetSlots.ncfg p) ->
+  NetA.ct (NetA.ns (NetSlots.net s) v) = NetA.CtHand -> NetA.rn (NetA.ns (NetSlots.net s) v) = NetA.RSel ->
+  exists s', NetSlots.pstep p s (NetSlots.PNet (NetA.AHand v)) = Some s'
+             /\ List.length (Slots.tasks (NetSlots.sl s')) = S (List.length (Slots.tasks (NetSlots.sl s)))
+             /\ Slots.tokens (NetSlots.sl s') = Slots.tokens (NetSlots.sl s).
+Proof.
+  intros p s v Hv C R. unfold NetSlots.pstep.
+  assert (L : Nat.ltb v (NetA.nn (NetSlots.ncfg p)) = true) by (apply Nat.ltb_lt; exact Hv). rewrite L.
+  unfold NetA.step. rewrite C, R. simpl. eexists. split; [reflexivity|]. simpl. rewrite app_length. simpl. split; [lia|reflexivity].
+Qed.
+
 (* T1, call cones: every function of scipipe that the functions above can reach (calls and function values, interface calls
    resolved to every implementation) is one the models were compared with -- a helper that is new to the cone, or a new call
    of an old one, changes a list (the lists are regenerated from /repo on every run; ExpectedCones.v holds the accepted ones) *)
@@ -78,3 +96,4 @@ Print Assumptions C07_work_conserving_general.
 Print Assumptions C07_oversize_rejected_code.
 Print Assumptions C07_no_mutex_refuted.
 Print Assumptions C07_cone_conforms.
+Print Assumptions C07_spawn_never_waits_for_the_queue.
